@@ -35,11 +35,23 @@ Definition cred_id (c : cred) : string :=
   | Assertion None _ => ""
   | _ => fst (cred_pair c)
   end.
-(* the storage accepts the presented id / secret pair (needed to justify a positive answer) *)
+(* "the authenticated caller": the request PROVES a credential registered for the client it
+   names.  A secret proves something only if the client is registered WITH one and the presented
+   secret is exactly that one: a client registered without a secret (public, private_key_jwt -
+   whatever empty value the storage keeps for it and however it compares) has nothing to prove
+   with, so naming it with a missing, empty, blank or any other secret authenticates nobody; no
+   trimming, no case folding, no near misses of id or secret.  A client assertion proves the
+   identity of its issuer when it verifies (oracle verdict).  Written from the registrations
+   (ground truth of the input), not from what the storage or the provider's helpers accept. *)
+Definition proved_secret (cl : list client) (id sec : string) : bool :=
+  match find_client cl id with
+  | Some k => nonempty (c_secret k) && String.eqb (c_secret k) sec
+  | None => false
+  end.
 Definition authenticated (cl : list client) (c : cred) : bool :=
   match c with
   | NoCred => false
-  | Basic i s | Post i s | Both i s _ => sec_ok cl i s
+  | Basic i s | Post i s | Both i s _ => proved_secret cl i s
   | Assertion who _ => match who with Some _ => true | None => false end
   end.
 (* credentials every endpoint has to accept: a client registered for basic / post proves its
@@ -89,8 +101,8 @@ Definition g_has_live (g : store) (n : nat) (p : trec -> bool) : bool :=
   | None => false
   end.
 
-(* is the presented string a live token of the declared type? *)
-Definition subj_live (g : store) (typ : ttype) (t : tokstr) : bool :=
+(* is the presented string a live token of the provider, of the declared type? *)
+Definition own_live (g : store) (typ : ttype) (t : tokstr) : bool :=
   match typ with
   | TAccess => match as_access t with AT n => g_has_live g n (fun _ => true) | _ => false end
   | TRefresh => match t with
@@ -104,8 +116,22 @@ Definition subj_live (g : store) (typ : ttype) (t : tokstr) : bool :=
   | _ => false
   end.
 
+(* A third-party token is valid IN THE ROLE it is presented in (actor = true: as actor token)
+   exactly when its issuer vouches for it in that role - a token good as actor only is no subject
+   token and vice versa - and only a provider whose storage verifies third-party tokens can know;
+   it is declared id_token or jwt (it is neither an access nor a refresh token of this provider). *)
+Definition ext_live (g : store) (actor : bool) (typ : ttype) (t : tokstr) : bool :=
+  match t, typ with
+  | Ext c _, (TId | TJwt) => p_verifier (policy g) && ext_accepts c actor
+  | _, _ => false
+  end.
+
+(* the token presented in a role is a live token of the declared type *)
+Definition subj_live (actor : bool) (g : store) (typ : ttype) (t : tokstr) : bool :=
+  own_live g typ t || ext_live g actor typ t.
+
 Definition actor_live (g : store) (actor : option (tokstr * ttype)) : bool :=
-  match actor with None => true | Some (ta, typ) => subj_live g typ ta end.
+  match actor with None => true | Some (ta, typ) => subj_live true g typ ta end.
 
 (* a successful revocation: the token the string stands for is gone, and with a refresh
    token its access token (storage contract) *)
@@ -129,7 +155,7 @@ Definition gstep (cl : list client) (g : store) (o : op) (x : out) : store :=
   | Issue _ cid sub scopes, OIssued (AT a) rt =>
       let t := TRec cid sub "" scopes [cid] (expired_of cl cid) in
       match rt with RT m => add_at_rt m a t g | _ => add_at a t g end
-  | Exchange _ _ _ _ _ _ _ _, OExch _ (XOpaque (AT a) _ | XJwt (AT a) _ _) rt _ _ (Some t) =>
+  | Exchange _ _ _ _ _ _ _ _, OExch _ (XOpaque (AT a) _ | XJwt (AT a) _ _ _) rt _ _ (Some t) =>
       match rt with RT m => add_at_rt m a t g | _ => add_at a t g end
   | Revoke _ _ t _, OOk => g_revoke g (denotes t)
   | EndSession _ hint cid, ORedirect =>
@@ -156,7 +182,8 @@ Definition check (cl : list client) (g : store) (o : op) (x : out) : bool :=
       | _ => false
       end
   | UserInfo _ _, OErr _ _ => true
-  (* active:true only for a live issued token, to an authenticated caller in its audience *)
+  (* active:true only for a live issued token, to a caller that proved a registered credential
+     (authenticated) and is in the token's audience *)
   | Introspect _ c t, OIntro true sub client _ _ =>
       authenticated cl c &&
       match as_access t with
@@ -174,7 +201,7 @@ Definition check (cl : list client) (g : store) (o : op) (x : out) : bool :=
   | Revoke _ c t _, OErr _ _ => foreign_to g (denotes t) (cred_id c) || negb (proper cl c)
   | EndSession _ _ _, (ORedirect | OErr _ _) => true
   (* exchange accepts only live subject / actor tokens *)
-  | Exchange _ _ subj styp actor _ _ _, OExch _ _ _ _ _ _ => subj_live g styp subj && actor_live g actor
+  | Exchange _ _ subj styp actor _ _ _, OExch _ _ _ _ _ _ => subj_live false g styp subj && actor_live g actor
   | Exchange _ _ _ _ _ _ _ _, OErr _ _ => true
   | _, _ => false
   end.
